@@ -1,6 +1,10 @@
 import Driver.Loop
 import Driver.Codec
 import PyGqlModel.Validate.Chain
+import PyGqlModel.Validate.WfIds
+import PyGqlModel.Validate.WfMeta
+import PyGqlModel.Validate.OverlapRank
+import PyGqlModel.Validate.WfSchema
 open PyGql PyGql.Validate
 
 namespace C06
@@ -52,6 +56,21 @@ def outcomeToJson : Outcome → J
   | .crash e => .obj [("crash", .str e)]
   | .errors l => .obj [("by_rule", .arr (l.map fun (r, n) => .arr [.str r.name, J.ofNat n]))]
 
+/-- the hypotheses of the headline theorems (`Props/C06_head.lean`: `DocOk` = `DocChecksStatic s d (computeRanks d)`,
+    `SchemaOutputs`) evaluated on the very document and schema the answer is about:
+    `ids` = `wfIdsB d`, `meta` = `noMetaSubsB d`, `rank` = `rankOkB s d (rankOf (computeRanks d))`,
+    `names` = no fragment is named "" (`NamesNonEmpty`), `schema_outputs` = `schemaOutputsB s` -/
+def checksToJson (s : SchemaD) (schemaOk : Bool) (d : Doc) : J :=
+  .obj [("ids", .bool (wfIdsB d)), ("meta", .bool (noMetaSubsB d)),
+        ("rank", .bool (rankOkB s d (rankOf (computeRanks d)))),
+        ("names", .bool ((Spec.fragNames d).all (· != ""))),
+        ("schema_outputs", .bool schemaOk)]
+
+def withChecks (j c : J) : J :=
+  match j with
+  | .obj kvs => .obj (kvs ++ [("checks", c)])
+  | j => j
+
 def rulesOfJson (j : J) : List Rule :=
   match j.get? "rules" with
   | some (.arr a) => a.filterMap fun x => x.asStr?.bind Rule.ofName
@@ -62,8 +81,10 @@ def handle (j : J) : J :=
   | "validate_many" =>
     let schema := Driver.schemaOfJson (j.getD "schema")
     let fixes := fixesOfJson (j.getD "fixes")
+    let schemaOk := schemaOutputsB schema
     .arr ((j.arrD "docs").map fun d =>
-      outcomeToJson (run { schema, fixes, rules := rulesOfJson d } (docOfJson (d.getD "doc"))))
+      let doc := docOfJson (d.getD "doc")
+      withChecks (outcomeToJson (run { schema, fixes, rules := rulesOfJson d } doc)) (checksToJson schema schemaOk doc))
   | "rules" => J.ofStrs (Rule.all.map (·.name))
   | _ => .obj [("error", .str "bad-op")]
 
